@@ -744,6 +744,12 @@ func validateExpressionAttributes(exprNames map[string]string, exprValues map[st
 		}
 	}
 
+	for _, expression := range genericExpressions {
+		if word := language.ReservedWordIn(expression); word != "" {
+			return &smithy.GenericAPIError{Code: "ValidationException", Message: "Invalid expression: Attribute name is a reserved keyword; reserved keyword: " + word}
+		}
+	}
+
 	return nil
 }
 
